@@ -602,7 +602,13 @@ impl<'a> PGen<'a> {
             }
             _ => {
                 // jump-and-link into a reserved link register
-                emit!(self, ri12(O::JAL, *self.g.pick(&[ONE, SP, PC, 0x22]), PC, 1));
+                if self.g.bool() {
+                    emit!(self, ri12(O::JAL, *self.g.pick(&[ONE, SP, PC, 0x22]), PC, 1));
+                } else {
+                    // link register == target register: the target is the fresh link value
+                    let r = *self.g.pick(&[LINK, A, 0x22]);
+                    emit!(self, ri12(O::JAL, r, r, self.g.below(3) as u32));
+                }
             }
         }
     }
